@@ -95,6 +95,9 @@ class Engine:
         :param product: product to price
         """
         mc_paths = self.configuration.mc_paths
+        if self.configuration.nb_of_processes == 1:
+            # the seed must be applied before `initialisation` pre-draws the Brownian increments and jump counts
+            self.configuration.initialisation_seed()
         self.initialisation(mc_paths, product)
 
         # Deterministic rates
@@ -113,7 +116,6 @@ class Engine:
         # Monte-Carlo loop
         if nb_of_processes == 1:
             # single process version
-            self.configuration.initialisation_seed()
             for iteration in range(mc_paths):
                 simulated_path = simulate_one_path()
                 # process the path: compute the payoff and discount it
